@@ -784,6 +784,7 @@ class Watcher(object):
                     self.send_signal_process(process, signal.SIGKILL,
                                              recursive=True)
             if self.stream_redirector:
+                self.stream_redirector.flush_redirections(process)
                 self.stream_redirector.remove_redirections(process)
         finally:
             # whatever happened, nobody may wait for this kill any longer
